@@ -23,7 +23,7 @@ func c20Package(rng *rand.Rand, idx int) rcase {
 	g := &jgen{rng: rng, noNullAny: true}
 	sp := &dialect.Spec{}
 	bf := baseForms[idx%len(baseForms)]
-	sp.ServerURL, sp.ServerVar = bf.Server, bf.Vars
+	sp.ServerURL, sp.ServerVar, sp.MoreServers = bf.Server, bf.Vars, bf.More
 	sp.Schemes = []dialect.Scheme{{Name: "bearer", Kind: "bearer"}, {Name: "key", Kind: "keyheader", Param: "X-Api-Key"}}
 	echo := dialect.Response{Status: "200", Headers: []dialect.Header{{Name: "X-Echo", Required: true, Schema: &dialect.Schema{Type: "string"}}}}
 	nops := 4 + rng.Intn(4)
